@@ -49,6 +49,8 @@ PROFILES = {
     'plain': dict(hyp_handlers=False),
     # one more loop unrolling: needed where a rule talks about two completed iterations
     'plain3': dict(hyp_handlers=False, while_max=3),
+    # two iterations of abstract for loops: needed where a rule talks about state carried from one element to the next
+    'for2': dict(for_two=True),
 }
 
 
@@ -288,3 +290,56 @@ def within(ev, qual):
 def real_call(ev):
     """A CALL event that is not merely the entry into an inlined helper."""
     return ev.kind == 'CALL' and not ev.d.get('inlined')
+
+
+ONE_SHOT_CALLS = ('map', 'filter', 'zip', 'iter', 'reversed', 'enumerate')
+
+
+def one_shot_reuse(fnode):
+    """Locals bound (once) to a one-shot iterator - a generator expression or map/filter/zip/iter/... - that are
+    consumed more than once on one path: two uses that are not in different arms of one `if`, or one use inside a loop
+    that the binding is outside of.  Returns [(name, lineno of the second use)]."""
+    binds = {}
+    for n in ast.walk(fnode):
+        if isinstance(n, ast.Assign) and len(n.targets) == 1 and isinstance(n.targets[0], ast.Name):
+            v = n.value
+            shot = isinstance(v, ast.GeneratorExp) or (isinstance(v, ast.Call) and isinstance(v.func, ast.Name)
+                                                       and v.func.id in ONE_SHOT_CALLS)
+            binds.setdefault(n.targets[0].id, []).append((n, shot))
+    names = {k for k, v in binds.items() if len(v) == 1 and v[0][1]}
+    if not names:
+        return []
+    uses = {k: [] for k in names}
+
+    def walk(node, arms, loops):
+        for field, val in ast.iter_fields(node):
+            kids = val if isinstance(val, list) else [val]
+            for kid in kids:
+                if not isinstance(kid, ast.AST):
+                    continue
+                a2, l2 = arms, loops
+                if isinstance(node, ast.If) and field in ('body', 'orelse'):
+                    a2 = arms + ((id(node), field),)
+                if isinstance(node, (ast.For, ast.While)) and field == 'body':
+                    l2 = loops + (node,)
+                if isinstance(node, (ast.GeneratorExp, ast.ListComp, ast.SetComp, ast.DictComp)) and field != 'generators':
+                    l2 = loops + (node,)
+                if isinstance(kid, ast.Name) and isinstance(kid.ctx, ast.Load) and kid.id in names:
+                    uses[kid.id].append((kid, a2, l2))
+                if isinstance(kid, (ast.FunctionDef, ast.AsyncFunctionDef, ast.Lambda)):
+                    continue
+                walk(kid, a2, l2)
+    walk(fnode, (), ())
+    out = []
+    for name, us in uses.items():
+        bind = binds[name][0][0]
+        for kid, arms, loops in us:
+            if any(not any(x is bind for x in ast.walk(lp)) for lp in loops):
+                out.append((name, kid.lineno))
+        for i, (k1, a1, _) in enumerate(us):
+            for k2, a2, _ in us[i + 1:]:
+                d1, d2 = dict(a1), dict(a2)
+                if not any(d1[c] != d2[c] for c in d1 if c in d2):
+                    out.append((name, k2.lineno))
+    return sorted(set(out))
+
